@@ -1,4 +1,5 @@
 import TempestVerif.Sc
+import TempestVerif.Model.Ess
 /-
   Model of `SamplerCore.run_sampling` / `_not_termination` (C12; shared with C08, C10).
       while self._not_termination(): self.execute_iteration(...)
@@ -23,5 +24,31 @@ def loop (cont : S → Bool) (iter : S → S) : Nat → S → Option S
 def runSampling (cont : S → Bool) (iter : S → S) (z1 : S → α) (setLogz : S → α → S)
     (fuel : Nat) (s : S) : Option S :=
   (loop cont iter fuel s).map fun s' => setLogz s' (z1 s')
+
+/-- the whole `_not_termination`, with the ESS computed as the code does from the log-weights at beta = 1:
+      logw, _ = compute_logw_and_logz(1.0)
+      if len(logw) == 0: return True
+      weights = np.exp(logw - np.max(logw)); ess = effective_sample_size(weights)
+      return 1.0 - beta >= tol or ess < n_total -/
+def notTermination {α : Type} [ScT α] (tol beta : α) (logw : List α) (nTotal : α) : Bool :=
+  match logw with
+  | [] => true
+  | x :: xs =>
+    let m := Model.Ess.maxOf x xs
+    notTerm tol beta (Model.Ess.ess ((x :: xs).map fun l => ScT.exp (Sc.sub l m))) nTotal
+
+/-- a concrete state for `run_sampling`: the stored history (opaque), and the two current scalars the guard and the
+    epilogue touch.  `set_current("logz", v)` writes `logz` and nothing else. -/
+structure RunState (H α : Type) where
+  hist : H
+  beta : α
+  logz : α
+
+def RunState.setLogz {H α : Type} (s : RunState H α) (v : α) : RunState H α := { s with logz := v }
+
+/-- `run_sampling` on `RunState`: `logw1 h` / `z1 h` are the two results of `compute_logw_and_logz(1.0)` on history `h` -/
+def runConcrete {H α : Type} [ScT α] (tol nTotal : α) (logw1 : H → List α) (z1 : H → α)
+    (iter : RunState H α → RunState H α) (fuel : Nat) (s : RunState H α) : Option (RunState H α) :=
+  runSampling (fun s => notTermination tol s.beta (logw1 s.hist) nTotal) iter (fun s => z1 s.hist) RunState.setLogz fuel s
 
 end Model.Run
